@@ -46,6 +46,9 @@ type tokenWorld struct {
 	// faulty: this world is a faulting configuration (storage calls may fail inside operations); fault-free worlds
 	// keep every oracle at full strength
 	faulty bool
+	// focus: the token whose expiry instant the clock was just moved to; the next focusLeft picks return it
+	focus     *grantedToken
+	focusLeft int
 }
 
 func (tw *tokenWorld) site(s string) string { return "router" + tw.w.Router + "/" + s }
@@ -101,6 +104,11 @@ func (tw *tokenWorld) pick(ch *kernel.Chooser, needRefresh bool) *grantedToken {
 	}
 	if len(c) == 0 {
 		return nil
+	}
+	if f := tw.focus; f != nil && tw.focusLeft > 0 && (!needRefresh || f.refresh != "") && slices.Contains(c, f) {
+		// the clock was just moved to an instant that matters for this token: the next operations use it
+		tw.focusLeft--
+		return f
 	}
 	return c[ch.Int(len(c))]
 }
@@ -313,6 +321,8 @@ func (tw *tokenWorld) refresh(ch *kernel.Chooser) string {
 	allowed, und, why := authAllowed(w, p, true, w.Conf.AuthMethodPrivateKeyJWT, time.Now())
 	if !und && !allowed {
 		tw.viol("C05", "unauthenticated-success", "token/refresh/"+why, "%s: tokens issued although the presentation %q does not authenticate client %q (%s)", desc, p.label, caller, why)
+		// C07 states the same of the refresh grant itself ("succeeds only for the authenticated, or public and identified, client")
+		tw.viol("C07", "unauthenticated-refresh", "refresh/"+why, "%s: refresh succeeded although the presentation %q does not authenticate client %q (%s)", desc, p.label, caller, why)
 	}
 	cc := w.Store.Clients[p.claimedClient()]
 	if cc != nil && !cc.HasGrant(oidc.GrantTypeRefreshToken) {
@@ -677,6 +687,8 @@ func (tw *tokenWorld) revoke(ch *kernel.Chooser) string {
 		// a state change: only the owner, authenticated, may cause it
 		if !und && !allowed {
 			tw.viol("C05", "unauthenticated-success", "revoke/"+why, "%s: token was revoked although presentation %q does not authenticate client %q (%s)", desc, p.label, caller, why)
+			// whoever merely names the owner is not the owner: C08 refuses revocation by anyone else
+			tw.viol("C08", "unauthenticated-revocation", "revoke/"+why, "%s: token was revoked although presentation %q does not authenticate client %q (%s)", desc, p.label, caller, why)
 		}
 		if p.claimedClient() != g.client {
 			tw.viol("C08", "foreign-revocation", "revoke", "%s: client %q revoked a token of client %q", desc, p.claimedClient(), g.client)
@@ -812,14 +824,21 @@ func (tw *tokenWorld) exchangeUse(ch *kernel.Chooser) string {
 	slive := sdec && w.Store.TokenLive(sid) && (skind == "genuine" || stok == subj.access || strings.Count(subj.access, ".") != 2 || sameJWT(stok, subj.access))
 	// an ID token of the provider may serve as subject or actor too: it is live as long as it has not expired (the
 	// provider keeps no record of ID tokens; its own expiry check is all there is)
+	// exact: an ID token is dead from the instant exp names; a request that began before that instant and ended after
+	// it may be answered either way (idEnds holds the instants to compare the request's end with)
+	var idEnds []time.Time
 	idLive := func(g *grantedToken) (live, undecided bool) {
 		pl := world.JWTPayload(g.idToken)
 		exp, ok := pl["exp"].(float64)
 		if !ok {
 			return false, false
 		}
-		d := time.Until(time.Unix(int64(exp), 0))
-		return d > 0, d > -3*time.Second && d < 3*time.Second
+		end := time.Unix(int64(exp), 0)
+		if time.Now().Before(end) {
+			idEnds = append(idEnds, end)
+			return true, false
+		}
+		return false, false
 	}
 	sUndecided := false
 	if subj.idToken != "" && ch.Bool(1, 3) {
@@ -856,6 +875,12 @@ func (tw *tokenWorld) exchangeUse(ch *kernel.Chooser) string {
 		return desc
 	}
 	tw.o.Probe("exchange-success")
+	for _, end := range idEnds {
+		if !time.Now().Before(end) {
+			// an ID token ended while the request was being served
+			sUndecided, aUndecided = true, true
+		}
+	}
 	if skind == "id-token" {
 		tw.o.Probe("exchange-id-token-subject-success")
 	}
@@ -873,7 +898,32 @@ func (tw *tokenWorld) exchangeUse(ch *kernel.Chooser) string {
 
 func (tw *tokenWorld) advance(ch *kernel.Chooser) string {
 	var d time.Duration
-	switch ch.Int(4) {
+	switch ch.Int(5) {
+	case 4:
+		// to the very instant at which a token of the pool ends (its ID token's exp, or the access token's expiry), or a
+		// few hundred milliseconds past it - still inside the second that exp names
+		if len(tw.pool) == 0 {
+			return "advance: no token"
+		}
+		g := tw.pool[ch.Int(len(tw.pool))]
+		var end time.Time
+		what := "access token"
+		if exp, ok := world.JWTPayload(g.idToken)["exp"].(float64); ok && g.idToken != "" && ch.Bool(1, 2) {
+			end, what = time.Unix(int64(exp), 0), "ID token"
+		} else if id, _, _, ok := tw.w.DecodeAccess(g.access); ok {
+			if t := tw.w.Store.TokenSnapshot(id); t != nil {
+				end = t.Exp
+			}
+		}
+		delta := []time.Duration{0, time.Millisecond, 400 * time.Millisecond, 999 * time.Millisecond, -time.Millisecond}[ch.Int(5)]
+		if end.IsZero() || time.Until(end)+delta <= 0 || time.Until(end) > 3*time.Hour {
+			return "advance: no token about to end"
+		}
+		d = time.Until(end) + delta
+		tw.w.Advance(d)
+		tw.focus, tw.focusLeft = g, 2
+		tw.o.Probe("clock-at-a-token's-expiry-instant")
+		return fmt.Sprintf("advance clock %v: %v relative to the end of the %s of %s/%s", d, delta, what, g.client, g.subject)
 	case 0:
 		d = time.Duration(ch.Range(1, 50)) * time.Second
 	case 1:
@@ -982,8 +1032,23 @@ func (tw *tokenWorld) codeGrant(ch *kernel.Chooser) string {
 		return fmt.Sprintf("code grant %s: no code (%v)", client, err)
 	}
 	p := tw.pickPresentation(ch, client)
+	// in some cases the operator has meanwhile taken the code grant (or every grant: an empty list is a legal
+	// registration) away from the client
+	cl := w.Store.Clients[client]
+	regNote, saved := "", cl.Grants
+	if ch.Bool(1, 6) {
+		if ch.Bool(1, 2) {
+			cl.Grants, regNote = nil, " [registration now lists no grant at all]"
+		} else {
+			cl.Grants = slices.DeleteFunc(append([]oidc.GrantType(nil), saved...), func(g oidc.GrantType) bool { return g == oidc.GrantTypeCode })
+			regNote = " [registration no longer lists authorization_code]"
+		}
+		tw.o.Probe("code-redeemed-after-grant-was-withdrawn")
+	}
 	r := w.PostForm("/oauth/token", codeForm(s), p.creds)
-	desc := fmt.Sprintf("code grant of %s pkce=%q redeemed with %s -> %d", client, pk, p.label, statusOf(r))
+	registered := cl.HasGrant(oidc.GrantTypeCode)
+	cl.Grants = saved
+	desc := fmt.Sprintf("code grant of %s pkce=%q redeemed with %s%s -> %d", client, pk, p.label, regNote, statusOf(r))
 	if panicProbe(tw.o, r) || r.Err != nil {
 		return desc
 	}
@@ -993,6 +1058,9 @@ func (tw *tokenWorld) codeGrant(ch *kernel.Chooser) string {
 		return desc
 	}
 	tw.o.Probe("other-grant-success")
+	if !registered {
+		tw.viol("C05", "unregistered-grant", "token/authorization_code", "%s: client %q is not registered for the authorization_code grant", desc, client)
+	}
 	tw.secretCheckFailed(r, "token/authorization_code", desc)
 	allowed, und, why := authAllowed(w, p, true, w.Conf.AuthMethodPrivateKeyJWT, time.Now())
 	if !und && !allowed {
